@@ -601,6 +601,15 @@ func goR015(c *Ctx, r *Repo, rule string) {
 					pkgNameObj = info.Uses[id]
 				}
 			}
+		case *ast.AssignStmt:
+			// the generator may be filled field by field: g.pkgName = pkgName
+			if len(y.Lhs) == 1 && len(y.Rhs) == 1 {
+				if se, ok := y.Lhs[0].(*ast.SelectorExpr); ok && se.Sel.Name == "pkgName" {
+					if id, ok := y.Rhs[0].(*ast.Ident); ok {
+						pkgNameObj = info.Uses[id]
+					}
+				}
+			}
 		}
 		return true
 	})
@@ -900,14 +909,38 @@ func init() {
 		if len(spec) != 2 {
 			return
 		}
-		r := loadRepo(c, packages.LoadSyntax, "", "./"+spec[0])
-		p := r.Pkg(spec[0])
+		var r *Repo
+		var p *packages.Package
+		if strings.HasPrefix(spec[0], "tools/") {
+			r = loadRepo(c, packages.LoadSyntax, "tools", "./"+strings.TrimPrefix(spec[0], "tools/"))
+			for path, pk := range r.Pkgs {
+				if strings.HasSuffix(path, "/"+spec[0]) && len(pk.Syntax) > 0 {
+					p = pk
+				}
+			}
+		} else {
+			r = loadRepo(c, packages.LoadSyntax, "", "./"+spec[0])
+			p = r.Pkg(spec[0])
+		}
 		fd := FuncDecl(p, spec[1])
 		if fd == nil {
 			fmt.Println("not found")
 			return
 		}
 		paths, _ := enumerateFunc(p.TypesInfo, fd)
+		if names := os.Getenv("MVCHECK_DBG_FOLLOW"); names != "" {
+			// follow the named unexported functions (comma separated; "*" = all)
+			d := newDT(p.TypesInfo)
+			d.callInline = map[*types.Func]*ast.FuncDecl{}
+			for fn, g := range pkgUnexported(p) {
+				if names == "*" || strings.Contains(","+names+",", ","+fn.Name()+",") {
+					d.callInline[fn] = g
+				}
+			}
+			d.paths = nil
+			d.stmts(seedEnv(d, fd), fd.Body.List, func(p *dtPath) { d.finish(p, "end") })
+			paths = d.paths
+		}
 		for _, q := range paths {
 			fmt.Println("PATH", q.String())
 			for _, st := range q.Steps {
@@ -924,51 +957,92 @@ func init() {
 func ruleFormattersKeepComments(c *Ctx, r *Repo, rule string) {
 	ip := r.Pkg("internal")
 	info := ip.TypesInfo
-	for _, name := range []string{"gofmt", "goimports"} {
-		h := FuncDecl(ip, name)
-		if h == nil {
-			c.Fail(rule, "formatter|"+name+"|missing", "internal/template_generator.go", name+" not found")
-			continue
-		}
-		arg := info.Defs[h.Type.Params.List[0].Names[0]]
-		good, why := false, name+" does not hand the rendered bytes to its library formatter"
-		nCalls := 0
-		ast.Inspect(h.Body, func(n ast.Node) bool {
-			call, ok := n.(*ast.CallExpr)
-			if !ok {
-				return true
-			}
-			switch calleeName(info, call) {
-			case "go/format.Source":
-				nCalls++
-				good = len(call.Args) == 1 && isObj(info, call.Args[0], arg)
-			case "golang.org/x/tools/imports.Process":
-				nCalls++
-				if len(call.Args) != 3 || !isObj(info, call.Args[1], arg) {
-					return true
-				}
-				switch o := ast.Unparen(call.Args[2]).(type) {
-				case *ast.Ident:
-					good = isNilIdent(info, o)
-				case *ast.UnaryExpr:
-					if cl, ok := o.X.(*ast.CompositeLit); ok {
-						for _, el := range cl.Elts {
-							if kv, ok := el.(*ast.KeyValueExpr); ok {
-								if k, ok := kv.Key.(*ast.Ident); ok && k.Name == "Comments" {
-									if tv := info.Types[kv.Value]; tv.Value != nil && tv.Value.String() == "true" {
-										good = true
-									}
-								}
-							}
-						}
-						if !good {
-							why = name + " calls imports.Process with options that do not set Comments: true, so every comment is dropped from the output: the generated-code marker, the boilerplate and the //go:build line disappear"
-						}
+	// (a) every imports.Options value written in the package keeps comments, wherever it is written (a call
+	// argument, a table of options per formatter, a variable): go/format.Source and a nil *Options always do
+	nOpt := 0
+	for _, f := range ip.Syntax {
+		for _, d := range f.Decls {
+			owner := "package"
+			switch x := d.(type) {
+			case *ast.FuncDecl:
+				owner = x.Name.Name
+			case *ast.GenDecl:
+				for _, sp := range x.Specs {
+					if vs, ok := sp.(*ast.ValueSpec); ok && len(vs.Names) > 0 {
+						owner = vs.Names[0].Name
 					}
 				}
 			}
-			return true
-		})
-		c.Check(good && nCalls == 1, rule, "formatter|"+name+"|keeps-comments", r.Pos(h.Pos()), name+" formats the rendered bytes with comments kept", why)
+			idx := 0
+			ast.Inspect(d, func(n ast.Node) bool {
+				switch x := n.(type) {
+				case *ast.CompositeLit:
+					t := info.TypeOf(x)
+					if t == nil {
+						return true
+					}
+					if pt, ok := t.(*types.Pointer); ok {
+						t = pt.Elem() // elided &T{..} inside a map or slice literal
+					}
+					if !typeIs(t, "golang.org/x/tools/imports.Options") {
+						return true
+					}
+					nOpt++
+					idx++
+					keeps := false
+					for _, el := range x.Elts {
+						if kv, ok := el.(*ast.KeyValueExpr); ok {
+							if k, ok := kv.Key.(*ast.Ident); ok && k.Name == "Comments" {
+								if tv := info.Types[kv.Value]; tv.Value != nil && tv.Value.String() == "true" {
+									keeps = true
+								}
+							}
+						}
+					}
+					c.Check(keeps, rule, fmt.Sprintf("formatter|options|%s#%d", owner, idx), r.Pos(x.Pos()), "imports.Options with Comments: true", "imports.Options written in "+owner+" do not set Comments: true, so a formatter using them drops every comment from the output: the generated-code marker, the boilerplate and the //go:build line disappear")
+				case *ast.AssignStmt:
+					for i, l := range x.Lhs {
+						if se, ok := ast.Unparen(l).(*ast.SelectorExpr); ok && se.Sel.Name == "Comments" && i < len(x.Rhs) {
+							if bt := info.TypeOf(se.X); bt != nil && (typeIs(bt, "golang.org/x/tools/imports.Options") || typeIs(bt, "*golang.org/x/tools/imports.Options")) {
+								tv := info.Types[x.Rhs[i]]
+								c.Check(tv.Value != nil && tv.Value.String() == "true", rule, "formatter|options-store|"+owner, r.Pos(x.Pos()), "Comments set to true", "the Comments option of an imports.Options value is assigned something other than the constant true in "+owner)
+							}
+						}
+					}
+				}
+				return true
+			})
+		}
 	}
+	// (b) the library formatters reachable from TemplateGenerator.format are handed the rendered bytes
+	fm := FuncDecl(ip, "TemplateGenerator.format")
+	if fm == nil {
+		c.Fail(rule, "formatter|format|missing", "internal/template_generator.go", "TemplateGenerator.format not found")
+		return
+	}
+	nCalls, nSource := 0, 0
+	inspectWithHelpers(ip, fm, newFuncCanon(info, fm), 3, func(fc *fcanon, g *ast.FuncDecl, n ast.Node) bool {
+		call, ok := n.(*ast.CallExpr)
+		if !ok {
+			return true
+		}
+		var src ast.Expr
+		switch calleeName(info, call) {
+		case "go/format.Source":
+			nSource++
+			if len(call.Args) == 1 {
+				src = call.Args[0]
+			}
+		case "golang.org/x/tools/imports.Process":
+			if len(call.Args) == 3 {
+				src = call.Args[1]
+			}
+		default:
+			return true
+		}
+		nCalls++
+		c.Check(src != nil && fc.E(src) == "ARG0", rule, "formatter|input|"+g.Name.Name, r.Pos(call.Pos()), g.Name.Name+" formats the rendered bytes", g.Name.Name+" does not hand the rendered bytes to its library formatter")
+		return true
+	})
+	c.Check(nCalls >= 1 && (nOpt >= 1 || nSource == nCalls), rule, "formatter|reached", r.Pos(fm.Pos()), fmt.Sprintf("%d library formatter calls reachable from format, %d imports.Options values examined", nCalls, nOpt), "no library formatter call (go/format.Source, imports.Process) is reachable from TemplateGenerator.format, or imports.Process is used without any imports.Options value being found: comment preservation is not decided")
 }
